@@ -828,10 +828,44 @@ IMPORTS = "From Coq Require Import String.\nFrom Verif Require Import C07Judge.\
 
 
 def clause_for(code, c, r):
-    if code == 2:
-        if (r or {}).get("got", 0) is None and c["fmt"] == "dok" and c["op"].split(".")[-1] in ("isinf", "isnan"):
-            return "D30_dok_isinf_isnan_return_None"
+    # no open clause-tagged finding is left for C07 (D5/D14: fix 7b39a89, D29: fix f1f8980, D30: fix ea90286)
     return CLAUSE_OF_CODE.get(code, "other") + ":" + c["op"]
+
+
+def py_judge_matrix(out_code):
+    """policy-independent part of Corr/C07Judge.v:judge_matrix, used only when the Coq judge cannot be built:
+    silently wrong, hang, RuntimeError inside an operation, other exception (the baseline being right)"""
+    return {OUT_CODE["wrong"]: 2, OUT_CODE["hang"]: 5, OUT_CODE["runtimeerror"]: 7, OUT_CODE["other"]: 4}.get(out_code, 0)
+
+
+def py_judge_probe(kind, auto, const, shape, nshape, size, out, dense):
+    """Python transcription of Corr/C07Judge.v:judge_probe with the rules written out (fallback only)"""
+    O = OUT_CODE
+    if out == O["unsupported"]:
+        return 0
+    if out == O["hang"]:
+        return 5
+    if kind == 0:
+        if not auto:
+            return 0 if out == O["runtimeerror"] else 11
+        return 0 if (out == O["right"] and dense) else 12
+    if kind == 1:
+        return 15 if out == O["wrong"] else (11 if (out == O["right"] and not auto) else 0)
+    if kind == 2:
+        if const:
+            return 0 if (out == O["right"] and not dense) else (15 if out == O["wrong"] else 13)
+        if list(shape) == list(nshape):
+            return 0 if (out == O["right"] and dense) else (15 if out == O["wrong"] else 13)
+        return 0 if out == O["valueerror"] else 13
+    if kind == 3:
+        if size != 1 or list(shape) != []:
+            return 0 if out == O["valueerror"] else 14
+        return 0 if out == O["right"] else (15 if out == O["wrong"] else 14)
+    if kind == 4:
+        if size > shape[0] and const:
+            return 0 if out == O["valueerror"] else 16
+        return 0 if (out == O["right"] and dense) else (15 if out == O["wrong"] else 16)
+    return 1
 
 
 def campaign(build, tier, seed, report, budget=1):
@@ -857,7 +891,7 @@ def campaign(build, tier, seed, report, budget=1):
         gens[auto] = run_generation(auto, gen_cases[auto], probes, gcases if not auto else ())
         phase["impl_generation_" + ("auto" if auto else "unset")] = round(time.time() - t0, 1)
     t0 = time.time()
-    lits, meta = [], []
+    lits, meta, out_codes = [], [], []
     hist = {}
     not_exercised = {}
     harness_failures = []
@@ -883,22 +917,24 @@ def campaign(build, tier, seed, report, budget=1):
             toks = [FILLS[c["fill"]][3]] + ([FILLS[c["fill2"]][3]] if c["fill2"] is not None else [])
             kind = 1 if RECIPES[c["recipe"]]["kinds"] == "where1" else 0
             lits.append(vpair(coq_str(c["op"]), vZ(kind), vlist(toks), vZ(OUT_CODE[oc])))
+            out_codes.append(OUT_CODE[oc])
             meta.append((auto, i))
             hist[(c["op"], oc)] = hist.get((c["op"], oc), 0) + 1
+    coq_ok = True
     try:
         tagged = build.judge("c07_matrix", IMPORTS, "matrix_case", "judge_matrix_tagged", lits)
+        if len(tagged) != len(lits):
+            raise vlib.CoqEvalError(f"judge_matrix_tagged returned {len(tagged)} verdicts for {len(lits)} cases")
+        codes = [(k, (v - 1) // 4) for k, v in tagged if (v - 1) // 4 != 0]
+        must_raise = sum(1 for _k, v in tagged if (v - 1) % 4 == 0)
     except vlib.CoqEvalError as ex:
-        # the Coq side does not build (a generated fragment / the table changed and a proof or definition broke):
-        # search with the policy-independent part of the verdict, so that a failing input is still reported
-        fb = fallback_violations(gen_cases, gens, probes)
-        if not fb:
-            raise
-        report["notes"].append("Coq judge unavailable (" + str(ex)[:200] + "); violations found by the policy-independent fallback")
-        return fb
-    if len(tagged) != len(lits):
-        raise vlib.CoqEvalError(f"judge_matrix_tagged returned {len(tagged)} verdicts for {len(lits)} cases")
-    codes = [(k, (v - 1) // 4) for k, v in tagged if (v - 1) // 4 != 0]
-    must_raise = sum(1 for _k, v in tagged if (v - 1) % 4 == 0)
+        # the Coq side does not build (a generated fragment / the table changed and a definition or proof broke; the
+        # build failure itself is reported by the check as a broken obligation): judge with the policy-independent
+        # Python verdicts so that a concrete failing input is still searched for and reported
+        coq_ok = False
+        report["notes"].append("Coq judge unavailable (" + str(ex)[-300:] + "): verdicts by the Python fallback")
+        codes = [(k, py_judge_matrix(out_codes[k])) for k in range(len(lits)) if py_judge_matrix(out_codes[k])]
+        must_raise = None
     for k, code in codes:
         auto, i = meta[k]
         c, r = gen_cases[auto][i], gens[auto][0][i]
@@ -906,7 +942,7 @@ def campaign(build, tier, seed, report, budget=1):
                      "clause": clause_for(code, c, r), "what": CODE_TEXT.get(code, str(code)),
                      "case": dict(c, auto=auto), "impl": dict(r or {}), "replay_py": replay_line(c, auto)})
     # ---- probes
-    plits, pmeta = [], []
+    plits, pmeta, ptuples = [], [], []
     phist = {}
     for auto in (False, True):
         pres = gens[auto][1]
@@ -916,12 +952,22 @@ def campaign(build, tier, seed, report, budget=1):
             if "out" not in r and not r.get("hang"):
                 harness_failures.append({"case": c, "res": r})
             pr = PROBES[c["probe"]]
-            plits.append(vpair(vZ(pr["kind"]), vbool(auto), vbool(r.get("const", True)), vlist(r.get("shape", [3, 3])),
-                               vlist(r.get("nshape", [])), vZ(r.get("size", 9)), vZ(OUT_CODE[oc]), vbool(bool(r.get("dense")))))
+            pt = (pr["kind"], auto, bool(r.get("const", True)), r.get("shape", [3, 3]), r.get("nshape", []), r.get("size", 9),
+                  OUT_CODE[oc], bool(r.get("dense")))
+            ptuples.append(pt)
+            plits.append(vpair(vZ(pt[0]), vbool(pt[1]), vbool(pt[2]), vlist(pt[3]), vlist(pt[4]), vZ(pt[5]), vZ(pt[6]), vbool(pt[7])))
             pmeta.append((auto, i))
             tag = (c["probe"], "auto" if auto else "noauto", oc + ("/dense" if r.get("dense") else ""))
             phist[tag] = phist.get(tag, 0) + 1
-    pcodes = build.judge("c07_probes", IMPORTS, "probe_case", "judge_probe", plits)
+    pcodes = None
+    if coq_ok:
+        try:
+            pcodes = build.judge("c07_probes", IMPORTS, "probe_case", "judge_probe", plits)
+        except vlib.CoqEvalError as ex:
+            coq_ok = False
+            report["notes"].append("Coq probe judge unavailable (" + str(ex)[-200:] + "): Python fallback")
+    if pcodes is None:
+        pcodes = [(k, py_judge_probe(*pt)) for k, pt in enumerate(ptuples) if py_judge_probe(*pt)]
     for k, code in pcodes:
         auto, i = pmeta[k]
         c, r = probes[i], gens[auto][1][i]
@@ -939,7 +985,14 @@ def campaign(build, tier, seed, report, budget=1):
                            vlist([acc_token(a) for a in c["acc"]]), vZ(GUARD_OUT[g])))
         ghist[(("check_zero", "check_consistent", "check_fill_value")[c["kind"]], g)] = \
             ghist.get((("check_zero", "check_consistent", "check_fill_value")[c["kind"]], g), 0) + 1
-    for k, code in build.judge("c07_guards", IMPORTS, "guard_case", "judge_guard", glits):
+    gcodes = []
+    if coq_ok:
+        try:
+            gcodes = build.judge("c07_guards", IMPORTS, "guard_case", "judge_guard", glits)
+        except vlib.CoqEvalError as ex:
+            coq_ok = False
+            report["notes"].append("Coq guard judge unavailable (" + str(ex)[-200:] + "): guard correspondence skipped")
+    for k, code in gcodes:
         c = gcases[k]
         viol.append({"property": "C07", "op": ("check_zero_fill_value", "check_consistent_fill_value", "check_fill_value")[c["kind"]],
                      "kind": "representation", "clause": "guard_model_mismatch",
@@ -953,6 +1006,7 @@ def campaign(build, tier, seed, report, budget=1):
     cov = report["coverage"]
     phase["coq_judges"] = round(time.time() - t0, 1)
     cov["phase_seconds"] = phase
+    cov["judged_by"] = "Coq (Corr/C07Judge.v)" if coq_ok else "Python fallback (the Coq judge did not build)"
     cov["evaluations"] = len(lits) + len(plits) + len(glits)
     cov["guard_tags"] = {f"{k[0]}:{k[1]}": v for k, v in sorted(ghist.items())}
     exercised_ops = sorted({c["op"] for c in cases})
@@ -980,28 +1034,6 @@ def campaign(build, tier, seed, report, budget=1):
     cov["probe_tags"] = {f"{k[0]}/{k[1]}/{k[2]}": v for k, v in sorted(phist.items())}
     cov["right_up_to_sign_of_zero"] = sum(1 for auto in (False, True) for r in gens[auto][0] if r and r.get("match") == 2)
     cov["samples"] = [dict(case=cases[i], impl=gens[False][0][i]) for i in (0, len(cases) // 3, len(cases) - 1)]
-    return viol
-
-
-def fallback_violations(gen_cases, gens, probes):
-    """used only when the Coq judge cannot be built: silently wrong results and un-refused implicit coercions"""
-    viol = []
-    for auto in (False, True):
-        for c, r in zip(gen_cases[auto], gens[auto][0], strict=True):
-            oc = out_class(r)
-            if oc in ("wrong", "hang"):
-                viol.append({"property": "C07", "op": c["op"], "kind": "value",
-                             "clause": clause_for(2 if oc == "wrong" else 5, c, r),
-                             "what": CODE_TEXT[2 if oc == "wrong" else 5], "case": dict(c, auto=auto), "impl": dict(r or {}),
-                             "replay_py": replay_line(c, auto)})
-        for c, r in zip(probes, gens[auto][1], strict=True):
-            pr = PROBES[c["probe"]]
-            oc = out_class(r)
-            if (pr["kind"] == 0 and not auto and oc != "runtimeerror") or oc == "wrong":
-                viol.append({"property": "C07", "op": "probe:" + c["probe"], "kind": "value",
-                             "clause": ("coercion_not_refused:" if pr["kind"] == 0 else "probe_silently_wrong:") + c["probe"],
-                             "what": CODE_TEXT[11 if pr["kind"] == 0 else 15], "case": dict(c, auto=auto), "impl": r,
-                             "replay_py": replay_line(c, auto, probe=True)})
     return viol
 
 
